@@ -226,7 +226,11 @@ class CtorPurityRunner:
         self.cls = cls
 
     def gen(self, rng, prop: str) -> dict:
-        return {"scenario": NAME, "cls": self.cls, "faults": [], "ops": [{"op": "ctor_purity", "env": rng.choice(self.cls["envs"]), "pick": rng.getrandbits(16)}]}
+        # one environment that has dict-valued options (the G1 tasks) and one of the others in every run
+        rich = [e for e in self.cls["envs"] if e.startswith("G1")]
+        rest = [e for e in self.cls["envs"] if not e.startswith("G1")]
+        return {"scenario": NAME, "cls": self.cls, "faults": [], "ops": [{"op": "ctor_purity", "env": rng.choice(rich), "pick": rng.getrandbits(16)},
+                                                                        {"op": "ctor_purity", "env": rng.choice(rest), "pick": rng.getrandbits(16)}]}
 
     def shrink_candidates(self, plan: dict):
         return iter(())
